@@ -109,6 +109,7 @@ var paddings = [][]byte{nil, {0x00}, {0xff, 0x80, 0x01, 0xff, 0xff, 0xff, 0xff, 
 // checkEncodeU: one unsigned value through encoder, size function, decoder,
 // paddings and every strict prefix.
 func (c *codecRun) checkEncodeU(u uint64) {
+	mc.ProgressInput("integer codecs on", nil, u)
 	defer func() {
 		if r := recover(); r != nil {
 			c.fail("C18.no-panic", "encoding or decoding the integer %d (or its signed images) panicked: %v", u, r)
@@ -189,6 +190,7 @@ func (c *codecRun) checkEncodeU(u uint64) {
 }
 
 func (c *codecRun) checkEncodeF(f float64) {
+	mc.ProgressInput("float codecs on the float with bits", nil, math.Float64bits(f))
 	defer func() {
 		if r := recover(); r != nil {
 			c.fail("C18.no-panic", "encoding or decoding the float %v (bits %#x) panicked: %v", f, math.Float64bits(f), r)
@@ -252,6 +254,7 @@ func (c *codecRun) checkEncodeF(f float64) {
 // checkDecode: one byte string through all variable-length decoders, compared
 // with the independent readers.
 func (c *codecRun) checkDecode(in []byte) {
+	mc.ProgressInput("decoders on the byte string", in, 0)
 	defer func() {
 		if r := recover(); r != nil {
 			c.fail("C18.no-panic", "decoding % x panicked: %v", in, r)
